@@ -350,17 +350,21 @@ Proof.
   - apply inv_indexed_init.
 Qed.
 
-Theorem noindex_refines : forall dict pages ops, positive pages ->
-  run_noindex dict pages ops = run_spec_noindex pages ops.
+Theorem noindex_refines_gen : forall dict pages ops, positive pages ->
+  run_noindex_pinned dict pages ops = run_spec_noindex pages ops.
 Proof.
-  intros dict pages ops Hp. unfold run_noindex, run_spec_noindex.
+  intros dict pages ops Hp. unfold run_noindex_pinned, run_spec_noindex.
   apply (run_refines _ _ _ _ _ _ (inv_stream pages)).
   - intros. now apply step_noindex_refines.
   - apply inv_stream_init.
 Qed.
 
-(** Lazily loaded index: correct when the index-less seek restarts the page
-    counter at 0, i.e. for a chunk without a dictionary page. *)
+Theorem noindex_refines : forall pages ops, positive pages ->
+  run_noindex pages ops = run_spec_noindex pages ops.
+Proof. intros. now apply (noindex_refines_gen false). Qed.
+
+(** Lazily loaded index: correct because the index-less seek restarts the page
+    counter at 0 (before 5c1fea6: only for a chunk without a dictionary page). *)
 Lemma inv_indexed_stream : forall pages s p,
   inv_indexed pages s p -> serve_last s = false -> inv_stream pages s p.
 Proof. intros pages s p (_ & _ & H) Hs. rewrite Hs in H. now split. Qed.
@@ -402,7 +406,7 @@ Proof.
 Qed.
 
 Theorem lazy_refines : forall pages ops, positive pages ->
-  run_lazy false pages ops = run_spec_lazy pages ops.
+  run_lazy pages ops = run_spec_lazy pages ops.
 Proof.
   intros pages ops Hp. unfold run_lazy, run_spec_lazy.
   apply (run_refines _ _ _ _ _ _ (inv_lazy pages)).
